@@ -6,6 +6,7 @@ import shutil
 from .. import core
 from ..core import hexb
 from ..shellenv import ShellEnv
+from ..canvasrun import CanvasRunner
 
 MODULES = ["Robsd.Props.C17"]
 GENS = []
@@ -81,6 +82,36 @@ def run(ctx):
             seen[(step, name)] = seen.get((step, name), 0) + 1
             if seen[(step, name)] >= 2:
                 distinct.add(("l", step, name, seen[(step, name)]))
+    # ---- many real invocations on one day in one root, with the retention at work in between
+    cr = CanvasRunner(ctx, d)
+    nreal = 0
+    for t in range(ctx.n(1, 8)):
+        root = os.path.join(ctx.scratch, "c17real%d" % t)
+        keep = rng.choice([1, 2, 3]) if t else 3
+        attic = rng.random() < 0.7 if t else True
+        seen = []
+        cfg = dict(steps=[("one", False, 0, 0), ("two/x", False, 0, 0)], skip=[], cmdline_skip=[], ncpu=1)
+        for i in range(ctx.n(12, 14)):
+            res = cr.run(cfg, root=root, keep_root=(i > 0), hook=False, extra_conf="keep %d\nkeep-attic %s\n" % (keep, "yes" if attic else "no"))
+            nreal += 1
+            b = os.path.basename(res["builddir"]) if res["builddir"] else None
+            info = dict(root_listing=sorted(os.listdir(root)), keep=keep, attic=attic, invocation=i + 1, names_so_far=seen, rc=res["rc"], stderr=res["stderr"][-400:],
+                        how="canvas -d -C <conf with keep %d> run %d times in a row on one root (bash, real robsd-clean/robsd-ls)" % (keep, i + 1))
+            if res["rc"] != 0 or b is None:
+                ctx.violation("invocation %d on a root with %d earlier ones of today failed (rc=%s) or created no directory" % (i + 1, i, res["rc"]), info)
+                break
+            if b in seen:
+                ctx.violation("invocation %d was given the directory %s, which invocation %d already used" % (i + 1, b, seen.index(b) + 1), info)
+                break
+            seen.append(b)
+            # an invocation moved to the attic stays a single record
+            ad = os.path.join(root, "attic")
+            nested = [os.path.join(dp, x) for dp, dn, fn in os.walk(ad) for x in dn if x.startswith(today[8:] + ".") and os.path.basename(dp).startswith(today[8:] + ".")] if os.path.isdir(ad) else []
+            if nested:
+                ctx.violation("the attic holds an invocation nested inside another one: %s" % nested[:2], info)
+                break
+        kinds["real-invocations"] = nreal
+        distinct.add(("real", keep, attic))
     ans = ctx.model(reqs) if reqs else []
     for q, a, want in zip(reqs, ans, obs):
         if a != want:
@@ -91,6 +122,7 @@ def run(ctx):
         rule="roots holding 0-15 invocations of today with gaps (oldest removed as cleaning does), more than nine per day, directories of other days, an attic, "
              "a plain file named like an invocation; sequences of 1-14 attempts of steps with names over letters, digits, '.', '_', '-', '/' and ids 1..123; "
              "non-trivial = distinct state with >= 2 invocations of today / a step attempted >= 2 times; util.sh build_id/log_id run under bash and compared with "
-             "the model; freshness (the returned name does not exist) checked directly",
+             "the model; freshness (the returned name does not exist) checked directly; 12-14 real canvas invocations in a row on one root with keep 1-3 (attic on/off): "
+             "every invocation gets a directory name no earlier invocation of that root had, attic records stay single",
         samples=[dict(request=q[:160], impl=w) for q, w in list(zip(reqs, obs))[:: max(1, len(reqs) // 4)][:4]],
         traces_validated_against_impl=len(reqs), outcome_kinds=kinds))
